@@ -870,7 +870,7 @@ fn sub_lists(tier: Tier) -> Sub {
                         _ => MLoc::StartLength(MAddr::C(0x400), 0x40 + k as u64, x(k)),
                     })
                     .collect();
-                u.locs = vec![l, vec![MLoc::StartEnd(MAddr::C(1), MAddr::C(2), vec![MOp::Reg(0)])]];
+                u.locs = vec![l, vec![if root_low != 0 { MLoc::OffsetPair(1, 2, vec![MOp::Reg(0)]) } else { MLoc::StartEnd(MAddr::C(1), MAddr::C(2), vec![MOp::Reg(0)]) }]];
                 u.entries[1].attrs.push((AT_LOCATION, MV::LocRef(0)));
                 u.entries[2].attrs.push((AT_LOCATION, MV::LocRef(1)));
             } else {
@@ -887,7 +887,7 @@ fn sub_lists(tier: Tier) -> Sub {
                         _ => MRange::StartLength(MAddr::C(0x400), 0x40 + k as u64),
                     })
                     .collect();
-                u.ranges = vec![l, vec![MRange::StartEnd(MAddr::C(1), MAddr::C(2))]];
+                u.ranges = vec![l, vec![if root_low != 0 { MRange::OffsetPair(1, 2) } else { MRange::StartEnd(MAddr::C(1), MAddr::C(2)) }]];
                 u.entries[1].attrs.push((AT_RANGES, MV::RngRef(0)));
                 u.entries[2].attrs.push((AT_RANGES, MV::RngRef(1)));
             }
